@@ -24,6 +24,9 @@ enum Fault {
     /// chunk i keeps its payload but carries another chunk's id (so one id is missing and one is doubled while,
     /// in arrival order, the payload would still be the right one)
     Relabel(usize, usize),
+    /// the boundary between two NON-final chunks i and i+1 moved by d bytes (the total is unchanged, and so is the sum of
+    /// the non-final sizes)
+    Shift(usize, i64),
 }
 
 struct Scenario {
@@ -172,6 +175,9 @@ pub fn run(args: &Args) -> i32 {
                 if i + 1 < n {
                     faults.extend([Fault::Resize(i, 1), Fault::Resize(i, -1)]);
                 }
+                if i + 2 < n {
+                    faults.extend([Fault::Shift(i, 1), Fault::Shift(i, -1), Fault::Shift(i, 5), Fault::Shift(i, -5)]);
+                }
                 if n <= 8 {
                     for j in 0..n {
                         if j != i {
@@ -188,7 +194,7 @@ pub fn run(args: &Args) -> i32 {
                 // the large packet: keep one fault of each kind per position class
                 faults.retain(|f| match f {
                     Fault::None | Fault::ShiftIds => true,
-                    Fault::Drop(i) | Fault::Dup(i) | Fault::ForeignBoard(i) | Fault::ForeignChip(i) | Fault::ToggleEom(i) | Fault::Resize(i, _) | Fault::DropDup(i, _) | Fault::Relabel(i, _) => *i == 0 || *i + 1 >= n.saturating_sub(1),
+                    Fault::Drop(i) | Fault::Dup(i) | Fault::ForeignBoard(i) | Fault::ForeignChip(i) | Fault::ToggleEom(i) | Fault::Resize(i, _) | Fault::DropDup(i, _) | Fault::Relabel(i, _) | Fault::Shift(i, _) => *i == 0 || *i + 1 >= n.saturating_sub(1),
                 });
             }
             for f in faults {
@@ -201,6 +207,15 @@ pub fn run(args: &Args) -> i32 {
                     }
                     sz[i] = a as usize;
                     sz[n - 1] = b as usize;
+                }
+                if let Fault::Shift(i, d) = f {
+                    let a = sz[i] as i64 + d;
+                    let b = sz[i + 1] as i64 - d;
+                    if a < 1 || b < 1 || a > 65535 || b > 65535 {
+                        continue;
+                    }
+                    sz[i] = a as usize;
+                    sz[i + 1] = b as usize;
                 }
                 let m = match f {
                     Fault::Drop(_) => n - 1,
@@ -224,7 +239,7 @@ pub fn run(args: &Args) -> i32 {
     rep.cov("max_chunks_with_all_permutations", json!(max_all));
 
     rep.run("orders-x-faults", tot, 60, false,
-        "5 payloads (0/1/2 channels, undecodable, largest legal 81268-byte packet) x chunk size (every 1..=L for the small ones; 5 sizes for the large) x fault {none, ids shifted, drop i, duplicate i, foreign board i, foreign chip i, toggle EOM i, resize non-final i by +-1, drop i and duplicate j, chunk i carrying the id of a neighbour / the first / the last / one past the last (<= 8 chunks)} x arrival orders (all m! for m <= bound, else identity/reversal/rotations/adjacent transpositions/move-to-front)",
+        "5 payloads (0/1/2 channels, undecodable, largest legal 81268-byte packet) x chunk size (every 1..=L for the small ones; 5 sizes for the large) x fault {none, ids shifted, drop i, duplicate i, foreign board i, foreign chip i, toggle EOM i, resize non-final i by +-1, drop i and duplicate j, chunk i carrying the id of a neighbour / the first / the last / one past the last (<= 8 chunks), the boundary between two non-final chunks moved by +-1 / +-5 bytes} x arrival orders (all m! for m <= bound, else identity/reversal/rotations/adjacent transpositions/move-to-front)",
         |idx, loc| {
             let si = match prefix.binary_search(&idx) {
                 Ok(i) => i,
@@ -351,6 +366,9 @@ pub fn run(args: &Args) -> i32 {
                 if i + 1 < n {
                     faults.extend([Fault::Resize(i, 1), Fault::Resize(i, -1)]);
                 }
+                if i + 2 < n {
+                    faults.extend([Fault::Shift(i, 1), Fault::Shift(i, -3)]);
+                }
                 for j in 0..n {
                     if j != i {
                         faults.extend([Fault::DropDup(i, j), Fault::Relabel(i, j)]);
@@ -366,6 +384,14 @@ pub fn run(args: &Args) -> i32 {
                     }
                     sz[i] = a as usize;
                     sz[n - 1] = b as usize;
+                }
+                if let Fault::Shift(i, d) = f {
+                    let (a, b) = (sz[i] as i64 + d, sz[i + 1] as i64 - d);
+                    if a < 1 || b < 1 {
+                        continue;
+                    }
+                    sz[i] = a as usize;
+                    sz[i + 1] = b as usize;
                 }
                 let m = match f {
                     Fault::Drop(_) => n - 1,
@@ -466,5 +492,6 @@ fn fault_kind(f: Fault) -> &'static str {
         Fault::ShiftIds => "shift-ids",
         Fault::DropDup(..) => "drop-and-duplicate",
         Fault::Relabel(..) => "relabel",
+        Fault::Shift(..) => "shift-boundary",
     }
 }
